@@ -383,6 +383,25 @@ impl Prop for C11 {
 				}
 			}
 		}
+		// a 5000-byte sub-component removed / shortened / lengthened in front of a tail of EVERY length 0..=8300
+		// (block-wise moves of the tail), plus the usual limits up to 70 000
+		for (i, n) in gen::sweep_lengths(8300, 70_000).into_iter().enumerate() {
+			if i % nshards != shard {
+				continue;
+			}
+			let big = "u".repeat(5000);
+			let (initial, ops) = match i % 4 {
+				0 => (format!("http://{big}@h/{}", "p".repeat(n)), vec![AOp::SetUserinfo(None), AOp::SetHost("g".into())]),
+				1 => (format!("http://u@{big}:1{}", if n == 0 { String::new() } else { format!("/{}", "p".repeat(n - 1)) }), vec![AOp::SetHost("h".into()), AOp::SetPort(None)]),
+				2 => (format!("//u@h:{}?{}", "7".repeat(5000), "q".repeat(n)), vec![AOp::SetPort(Some("1".into())), AOp::SetUserinfo(Some(big.clone()))]),
+				_ => (format!("s://u@h:1/p#{}", "f".repeat(n)), vec![AOp::SetHost(big.clone()), AOp::SetHost("h".into()), AOp::SetUserinfo(None)]),
+			};
+			let fam = if i % 2 == 0 { Fam::Uri } else { Fam::Iri };
+			let full = !initial.starts_with("//");
+			if !f(Case { fam, full, initial, ops, derive: vec![] }, true) {
+				return vec![];
+			}
+		}
 		// huge sub-components and a huge tail behind the authority
 		{
 			let mut gi = 0usize;
@@ -454,7 +473,7 @@ impl Prop for C11 {
 				}
 			}
 		}
-		vec!["histories of k+4 calls through one handle, k = 63..1025 around powers of two (thorough: up to 65 537): one sub-component edited, the other two k times, the first again", "huge (1 MiB+3 .. 5 MiB+1) sub-components and tails, each followed by an ordinary edit on the same thread", "authority shapes (4 user infos x 5 hosts x 3 ports) x 5 tails x all call sequences of length <= 2 over 11 calls"]
+		vec!["a 5000-byte sub-component removed / shortened / lengthened in front of a tail of every length 0..=8300 (and the usual limits up to 70 000)", "histories of k+4 calls through one handle, k = 63..1025 around powers of two (thorough: up to 65 537): one sub-component edited, the other two k times, the first again", "huge (1 MiB+3 .. 5 MiB+1) sub-components and tails, each followed by an ordinary edit on the same thread", "authority shapes (4 user infos x 5 hosts x 3 ports) x 5 tails x all call sequences of length <= 2 over 11 calls"]
 	}
 
 	fn floors(_tier: Tier) -> Vec<(&'static str, u64)> {
